@@ -221,8 +221,8 @@ def decoratorArgs (E : Ext) (args : List Meta) : Option (List FieldDecorator) :=
 
 def langOrder : List Lang := [.go, .kotlin, .scala, .swift, .typescript, .python]
 
-/-- `get_field_decorators`.  A nested list whose name is not a language panics
-(`ident.try_into().unwrap()`). -/
+/-- `get_field_decorators`.  A nested list whose name is not a language is ignored (before the
+`fix:` commit 26c823b it panicked in `ident.try_into().unwrap()`). -/
 def getFieldDecorators (E : Ext) (attrs : List Attr) : Outcome (List (Lang × List FieldDecorator)) :=
   let lists := (attrs.flatMap fun a => getMetaItems a kTypeshare).filterMap fun m =>
     match m with
@@ -233,7 +233,7 @@ def getFieldDecorators (E : Ext) (attrs : List Attr) : Outcome (List (Lang × Li
     | [], acc => .ok acc
     | (name, args) :: rest, acc =>
       match langOfStr E name with
-      | none => .panic s%"parser.rs:737"
+      | none => go rest acc
       | some l => go rest (acc ++ [(l, (decoratorArgs E args).getD [])])
   match go lists [] with
   | .ok pairs =>
@@ -271,8 +271,8 @@ def fieldType (E : Ext) (attrs : List Attr) (ty : SynType) : Outcome RustType :=
   | some s => RustTypes.fromStr E.parseType s
   | none => RustTypes.tryFrom ty
 
-/-- one named field of a struct (`checkFlatten`: struct fields reject `serde(flatten)`,
-struct-variant fields do not look at it) -/
+/-- one named field of a struct or of a struct variant (`checkFlatten` is `true` at both call
+sites since the `fix:` commit that made struct-variant fields reject `serde(flatten)` too) -/
 def parseField (E : Ext) (checkFlatten : Bool) (renameAll : Option Str) (f : Field) : Outcome RustField :=
   match fieldType E f.attrs f.ty with
   | .ok ty =>
@@ -334,7 +334,7 @@ def parseStruct (E : Ext) (targetOs : List Str) (attrs : List Attr) (ident : Str
       if fs.length > 1 then .err .complexTupleStruct
       else
         match fs with
-        | [] => .panic s%"parser.rs:287"
+        | [] => .err .unsupportedItem
         | f :: _ =>
           (match fieldType E f.attrs f.ty with
           | .ok ty => mkAlias E ident attrs gens ty
@@ -354,14 +354,14 @@ def parseEnumVariant (E : Ext) (targetOs : List Str) (enumRenameAll : Option Str
       if fs.length > 1 then .err .multipleUnnamedAssociatedTypes
       else
         match fs with
-        | [] => .panic s%"parser.rs:445"
+        | [] => .err .unsupportedItem
         | f :: _ =>
           (match fieldType E f.attrs f.ty with
           | .ok ty => .ok (.tuple id comments ty)
           | .err e => .err e
           | .panic p => .panic p)
     | .named fs =>
-      (match Outcome.mapM' (parseField E false (serdeRenameAll E v.attrs))
+      (match Outcome.mapM' (parseField E true (serdeRenameAll E v.attrs))
           (fs.filter fun f => !isSkipped f.attrs targetOs) with
       | .ok rfs => .ok (.anonymousStruct id comments rfs)
       | .err e => .err e
@@ -426,12 +426,13 @@ def parseTypeAlias (E : Ext) (attrs : List Attr) (ident : Str) (gens : List Gene
   | .err e => .err e
   | .panic p => .panic p
 
-/-- `parse_const_expr`: the first literal found in the initialiser decides -/
-def parseConstExpr (lits : List Lit) : Outcome Nat :=
-  match lits with
-  | .int v _ :: _ => if v ≤ i128Max then .ok v else .err .rustConstTypeInvalid
-  | _ :: _ => .err .rustConstTypeInvalid
-  | [] => .err .rustConstTypeInvalid
+/-- `parse_const_expr`: only a plain integer literal is accepted (`init = none`: the initialiser
+is some other expression) -/
+def parseConstExpr (init : Option Lit) : Outcome Nat :=
+  match init with
+  | some (.int v _) => if v ≤ i128Max then .ok v else .err .rustConstTypeInvalid
+  | some _ => .err .rustConstTypeInvalid
+  | none => .err .rustConstExprInvalid
 
 def constTypeOk : RustType → Bool
   | .hashMap _ _ | .vec _ | .option _ => false
@@ -440,9 +441,9 @@ def constTypeOk : RustType → Bool
   | .generic _ _ => false
 
 /-- `parse_const` -/
-def parseConst (E : Ext) (attrs : List Attr) (ident : Str) (ty : SynType) (lits : List Lit) :
+def parseConst (E : Ext) (attrs : List Attr) (ident : Str) (ty : SynType) (init : Option Lit) :
     Outcome RustItem :=
-  match parseConstExpr lits with
+  match parseConstExpr init with
   | .ok expr =>
     (match fieldType E attrs ty with
     | .ok t =>
